@@ -789,6 +789,59 @@ static void m5_case(Tape &t)
 	stats.eval(what + (scsv_first ? "/first" : "/last"));
 }
 
+// ------------------------------------------------------------- probe: the fallback SCSV chosen as THE cipher suite
+// An application that lists TLS_FALLBACK_SCSV (0x5600, the documented way to announce a voluntary
+// downgrade) against a server that answers with 0x5600 as selected suite.  The client must fail
+// with an error; it runs in a child process because the listed finding is a crash.
+#include <sys/wait.h>
+#include <unistd.h>
+extern "C" void __sanitizer_set_death_callback(void (*)(void)) __attribute__((weak));
+static void probe_scsv_selected()
+{
+	fflush(nullptr);
+	pid_t pid = fork();
+	if (pid == 0) {
+		Profile cp, sp;
+		cp.suites = { 0x002F, 0x5600 };
+		sp.suites = { 0x002F };
+		cp.vmin = cp.vmax = sp.vmin = sp.vmax = 0x0303;
+		BearClient c(cp);
+		BearServer s(sp);
+		EvilPolicy ep;
+		ep.vt = &EVIL_VT;
+		ep.inner = s.ss->policy_vtable;
+		ep.force = 0x5600;
+		ep.key_type = BR_KEYTYPE_RSA;
+		ep.chain = FX_RSA_CHAIN;
+		ep.chain_len = 2;
+		br_ssl_server_set_policy(s.ss.get(), &ep.vt);
+		signal(SIGSEGV, SIG_DFL); signal(SIGBUS, SIG_DFL); signal(SIGABRT, SIG_DFL);
+		if (__sanitizer_set_death_callback) __sanitizer_set_death_callback(nullptr);   // the child's fate is read from its exit status only
+		int rc = 43;
+		try {
+			if (c.reset() && s.reset()) {
+				Session S(&c, &s);
+				S.run(100000);
+				Bytes sink;
+				if (!c.closed()) bear_transport_eof(&c, &sink);
+				rc = S.ever_ready[0] ? 42 : (c.closed() && c.error() != 0) ? 40 : 41;
+				if (getenv("VERIF_DEBUG")) fprintf(stderr, "scsv probe: client ready %d closed %d err %d; server closed %d err %d suite %04x\n", (int)S.ever_ready[0], (int)c.closed(), c.error(), (int)s.closed(), s.error(), (unsigned)s.eng->session.cipher_suite);
+			}
+		} catch (...) { rc = 44; }
+		_exit(rc);
+	}
+	int st = 0;
+	waitpid(pid, &st, 0);
+	if (WIFSIGNALED(st) || (WIFEXITED(st) && (WEXITSTATUS(st) < 40 || WEXITSTATUS(st) > 44))) {
+		std::string what = fmt("a client that lists TLS_FALLBACK_SCSV and receives a ServerHello selecting 0x5600 as cipher suite crashes (child %s %d) or trips the sanitizer instead of failing with an error: the pseudo-suite passes the \"suite was offered\" test and has no MAC / cipher elements",
+			WIFSIGNALED(st) ? "killed by signal" : "exit status", WIFSIGNALED(st) ? WTERMSIG(st) : WEXITSTATUS(st));
+		if (known("client-accepts-fallback-scsv-as-suite")) stats.known_finding("client-accepts-fallback-scsv-as-suite", what);
+		else failf("%s", what.c_str());
+	} else {
+		VF_CHECK(WIFEXITED(st) && WEXITSTATUS(st) == 40, "probe: ServerHello selecting TLS_FALLBACK_SCSV: child exit status %d (40 = client failed cleanly, 41 = client neither ready nor failed, 42 = client became ready)", WIFEXITED(st) ? WEXITSTATUS(st) : -1);
+	}
+}
+
 // ------------------------------------------------------------- M3b: static ECDH client authentication without the key
 // The server asks for a client certificate on an ECDH_* suite; its validator (instrumented)
 // accepts the chain and returns the certified EC key.  The client has no private key at all: it
@@ -879,6 +932,8 @@ static void m3b_case(Tape &t)
 // ------------------------------------------------------------- entry points
 void target_run(Tape &t)
 {
+	static bool probed = false;
+	if (!probed) { probed = true; probe_scsv_selected(); }
 	unsigned m = t.u8();
 	if (m == 0xF0) { unsigned k = t.u8() % NKINDS; int dir = t.u8() & 1; size_t rec = t.u8(); size_t off = t.u16(); uint8_t mask = t.u8(); unsigned cm = t.u8(); m0_case(k, dir, rec, off, mask, cm); return; }
 	if (m == 0xF1) { unsigned k = t.u8() % NKINDS; int dir = t.u8() & 1; unsigned edit = t.u8() % E_NEDITS; size_t mi = t.u8(); unsigned aux = t.u8(); unsigned cm = t.u8(); m1_case(k, dir, edit, mi, aux, cm); return; }
